@@ -23,7 +23,11 @@ PartialVecs ==
         P("ReadOfflineSignature", EncOffline(T4, 7, 7, 1), [typ |-> 7], "off"), P("ReadSignature", Fill(64, 1), [typ |-> 7], "sig"),
         P("ReadEncryptedLeaseSet", EncELS(11, T4, << 2, 88 >>, 1, EncOffline(T4, 7, 11, 2), 100, Fill(100, 2), 7, 3), << >>, "els"),
         P("ReadLease", Fill(44, 1), << >>, "lease"), P("ReadLease2", Fill(40, 1), << >>, "lease2") >>
-Vecs == ZeroVecs \o PartialVecs
+\* values that come back with an error for reasons other than truncation: every offset set to each boundary value (counts past their limit,
+\* unknown types, flag bits, lengths), every 16-bit boundary value at every offset; the methods of whatever the parser returns are called
+MutVecs == SeqMap(LAMBDA v : [op |-> "ByteSweep", fn |-> v.fn, in |-> v["in"], values |-> << 0, 1, 2, 3, 5, 16, 17, 18, 127, 128, 254, 255 >>, values2 |-> << 0, 256, 65535 >>,
+                              step |-> 1, partial |-> TRUE, cls |-> "partial-" \o v.cls] @@ (IF "typ" \in DOMAIN v THEN [typ |-> v.typ] ELSE << >>), PartialVecs)
+Vecs == ZeroVecs \o PartialVecs \o MutVecs
 VARIABLE done
 Init == done = FALSE
 Next == ~done /\ ndJsonSerialize(OutFile, Vecs) /\ PrintT(<< "GENERATED", Len(Vecs) >>) /\ done' = TRUE
